@@ -15,17 +15,22 @@ import muccommon as mc
 
 def run(ctx):
     quick = ctx.tier == "quick"
-    runs, caught = mc.muc_design_check(ctx, quick, devs=None if not quick else ["BareLookup", "DepartLost", "NoReRegister", "JoinedBare", "InvitePerMessage", "StaleBlocks"])
+    runs, caught = mc.muc_design_check(ctx, quick, devs=mc.C18_DEVS if quick else sorted(mc.MUC_DEVS))
     if ctx.replay:
         case = json.load(open(ctx.replay))["case"]
         seq, exp = [], [case["scenario"]]
         if case["scenario"].get("mode") != "explore":
             seq, exp = exp, []
     else:
+        # the last two: one noise step taken from the full invitation alphabet (position of the muc#user
+        # payload among the children, jabber:x:conference element, 0-2 invites, password); one stanza
+        # delivered in two pieces (calls / cancellations in between)
         if quick:
-            sets = [('{"r1"}', 6, 4, 0), ('{"r1"}', 4, 3, 1), ('{"r1", "r2"}', 4, 3, 0)]
+            sets = [('{"r1"}', 6, 4, 0), ('{"r1"}', 4, 3, 1), ('{"r1", "r2"}', 4, 3, 0),
+                    ('{"r1"}', 3, 2, 1, {"invfull": True}), ('{"r1"}', 4, 3, 0, {"split": 1, "cuts": "{1, 2, 3}"})]
         else:
-            sets = [('{"r1"}', 7, 4, 0), ('{"r1"}', 5, 4, 1), ('{"r1", "r2"}', 5, 4, 0)]
+            sets = [('{"r1"}', 7, 4, 0), ('{"r1"}', 5, 4, 1), ('{"r1", "r2"}', 5, 4, 0),
+                    ('{"r1"}', 4, 3, 1, {"invfull": True}), ('{"r1"}', 6, 3, 0, {"split": 1, "cuts": "{1, 2, 3}"})]
         seq = mc.muc_emit(ctx, sets)
         exp = mc.muc_explore_scenarios(ctx.tier)
     files, s1, s2 = [], None, None
@@ -57,7 +62,7 @@ def run(ctx):
         "distinct_nontrivial": ntr, "rejected": len(rej), "rejections_by_clause": per,
         "scripts_cut_short": (s1["cut"] if s1 else 0), "hooks": hooks,
         "binding_selftest_mutants_rejected": nself,
-        "exhaustive": "every well-formed script of join/rejoin/leave/cancel calls and room stanzas (self-presence, error answer; noise: other nick, never-joined room, 0-2 invitations, unrelated stanzas) up to the tier's length bound (quick: one room <= 6 steps without noise, <= 4 with one noise step, two rooms <= 4; thorough: 7 / 5 / 5), each step taken at quiescence",
+        "exhaustive": "every well-formed script of join/rejoin/leave/cancel calls and room stanzas (self-presence, error answer; noise: other nick, never-joined room, 0-2 invitations, unrelated stanzas) up to the tier's length bound (quick: one room <= 6 steps without noise, <= 4 with one noise step, two rooms <= 4; thorough: 7 / 5 / 5), each step taken at quiescence; plus every script <= 3 / 4 steps with one invitation message out of the full invitation alphabet (16 orders of body / thread / muc#user payload / jabber:x:conference element x 0-2 <invite/> x password: 80 messages), and every script <= 4 / 6 steps in which one stanza is delivered in two pieces (cut after the start tag, in the middle, before the end tag) with calls and cancellations in between",
         "samples": samples[:2],
         "rule": "a trace is distinct if its event sequence differs; scheduler part: depth-first enumeration of interleavings at the yield points of package muc (before the rendezvous selects of HandlePresence, Join, Leave) and call starts, script steps in order, pre-emption bound %d, capped per script" % (1 if quick else 2),
     }, assumptions=["calls on one Channel are sequential (the type is not safe for concurrent calls); calls on different rooms run concurrently",
